@@ -84,6 +84,7 @@ def finish(prop, ctx, tie_broken_search_done):
     pid = ctx.pid
     lines = []
     code = 0
+    ctx.drain({"note": "noticed outside a case"})
     for key, n in sorted(ctx.known_hits.items()):
         lines.append("KNOWN-FINDING: property={} {} [{} case(s) this run]".format(pid, ctx.known[(pid, key)], n))
     # known findings that are listed are always announced, hit or not
